@@ -247,7 +247,13 @@ pub fn write_normal(w: &mut BitWriter, rng: &mut Rng, lens: &[u8], alphabet: usi
         w.bit(true);
         let mut ntok = toks.len() as u32;
         if want == Some("max-symbol-gt-alphabet") {
-            ntok = alphabet as u32 + 1 + rng.below(3) as u32;
+            // just above the alphabet, or at the top of the widest (16-bit) field, where 2 + value leaves a u16
+            ntok = match rng.below(4) {
+                0 => 2 + 0xffff,
+                1 => 2 + 0xfffe,
+                2 => 2 + 0xfffd - rng.below(3) as u32,
+                _ => alphabet as u32 + 1 + rng.below(3) as u32,
+            };
             viol.what.push("max-symbol-gt-alphabet");
         }
         // length_nbits = 2 + 2*k, value = ntok - 2 must fit
@@ -660,6 +666,13 @@ pub fn write_lossless_stream(bw: &mut BitWriter, rng: &mut Rng, w: u32, h: u32, 
         seq.push(dup);
         viol.what.push("duplicate-transform");
     }
+    // a back-reference running past the end of a sub-image whose size depends on the width AFTER a colour-indexing
+    // transform with a palette size at a packing boundary (2|3, 4|5, 16|17 colours): sizes the sub-image wrongly if the
+    // packing table is off by one
+    let after_palette = want == Some("backref-past-end") && rng.chance(1, 2);
+    if after_palette {
+        seq = vec![3, *rng.pick(&[0u32, 1])];
+    }
     // place the sub-image violations in the first sub-image that exists, else in the meta image / main codes
     let mut pending = match want {
         Some("duplicate-transform") | Some("all-transforms") | Some("none") | None => None,
@@ -671,7 +684,7 @@ pub fn write_lossless_stream(bw: &mut BitWriter, rng: &mut Rng, w: u32, h: u32, 
         bw.bits(t, 2);
         match t {
             0 | 1 => {
-                let k = rng.below(8) as u32;
+                let k = if after_palette { 0 } else { rng.below(8) as u32 };
                 bw.bits(k, 3);
                 let bs = 1u32 << (k + 2);
                 let (sw, sh) = (div_ceil(width, bs), div_ceil(h, bs));
@@ -680,14 +693,14 @@ pub fn write_lossless_stream(bw: &mut BitWriter, rng: &mut Rng, w: u32, h: u32, 
             }
             2 => {}
             _ => {
-                let ncolors = match rng.below(5) {
+                let ncolors = if after_palette { *rng.pick(&[2u32, 3, 4, 5, 16, 17]) } else { match rng.below(5) {
                     0 => 1 + rng.below(2) as u32,
                     1 => 3 + rng.below(2) as u32,
                     2 => 5 + rng.below(12) as u32,
                     _ => 17 + rng.below(240) as u32,
-                };
+                } };
                 bw.bits(ncolors - 1, 8);
-                let wv = if pending != Some("predictor-gt-13") { pending.take() } else { None };
+                let wv = if after_palette { None } else if pending != Some("predictor-gt-13") { pending.take() } else { None };
                 write_entropy_image(bw, rng, ncolors, ncolors, 255, viol, wv);
                 let bs = if ncolors <= 2 { 8 } else if ncolors <= 4 { 4 } else if ncolors <= 16 { 2 } else { 1 };
                 width = div_ceil(width, bs);
@@ -792,4 +805,61 @@ fn write_meta_image(bw: &mut BitWriter, rng: &mut Rng, width: u32, total: u32, v
     }
     let _ = width;
     *groups = maxg as u32 + 1;
+}
+
+/// A valid 2048x2048 stream whose predictor sub-image (512x512) is `52144 + shift` one-bit literals followed by
+/// about sixty back-references that each need 26 bits after their 2-bit prefix code (10 length + 14 distance extra
+/// bits, zero-bit distance code): the longest read-ahead the sub-image loop can need.  `shift` moves the bit
+/// alignment of the back-references relative to the buffer refills.
+pub fn backref_heavy(rng: &mut Rng, shift: u32) -> Vec<u8> {
+    let (w, h) = (2048u32, 2048u32);
+    let mut viol = Violations::default();
+    let mut bw = BitWriter::new();
+    bw.bits(0x2f, 8);
+    bw.bits(w - 1, 14);
+    bw.bits(h - 1, 14);
+    bw.bit(false);
+    bw.bits(0, 3);
+    bw.bit(true); // transform present
+    bw.bits(0, 2); // predictor
+    bw.bits(0, 3); // block size 4 -> 512 x 512 sub-image
+    bw.bit(false); // no colour cache in the sub-image
+    let mut glens = vec![0u8; 280];
+    glens[0] = 1;
+    glens[256 + 22] = 2;
+    glens[256 + 23] = 2;
+    let g = CodeSpec::Normal(glens, false);
+    let genc = Enc::of(&g);
+    write_code(&mut bw, rng, &g, 280, &mut viol, None);
+    for _ in 0..3 {
+        write_code(&mut bw, rng, &CodeSpec::Simple1(0, false), 256, &mut viol, None);
+    }
+    write_code(&mut bw, rng, &CodeSpec::Simple1(30, true), 40, &mut viol, None);
+    let total = 512u32 * 512;
+    let nlit = 52144 + shift;
+    for _ in 0..nlit {
+        genc.put(&mut bw, 0);
+    }
+    let rest = total - nlit;
+    let m = (rest + 3499) / 3500;
+    let per = rest / m;
+    let mut done = 0;
+    for k in 0..m {
+        let len = if k + 1 == m { rest - done } else { per };
+        done += len;
+        let (sym, extra) = if len >= 3073 { (256 + 23, len - 3073) } else { (256 + 22, len - 2049) };
+        genc.put(&mut bw, sym as u16);
+        bw.bits(extra, 10);
+        // distance: zero-bit code for prefix code 30, 14 extra bits
+        bw.bits(rng.below(16384) as u32, 14);
+    }
+    bw.bit(false); // no further transform
+    bw.bit(false); // no colour cache
+    bw.bit(false); // no meta prefix image
+    for a in [280usize, 256, 256, 256, 40] {
+        write_code(&mut bw, rng, &CodeSpec::Simple1(0, false), a, &mut viol, None);
+    }
+    let mut b = bw.bytes;
+    b.extend_from_slice(&[0; 3]);
+    b
 }
